@@ -22,6 +22,13 @@ type HashBinCase struct {
 	Invoke string   `json:"invoke,omitempty"`
 	Kinds  []string `json:"kinds"` // regular dir missing dangling symlink unreadable
 	Flags  []string `json:"flags"`
+	// Prime: every dependency first exists as a regular file and the task is run successfully (twice:
+	// the second run is a skip), only then do the dependencies take the kinds above. A recorded
+	// digest must not make spok forgiving about a dependency it can no longer read.
+	Prime bool `json:"prime,omitempty"`
+	// MoveAway (all kinds readable, first one regular): a task `first` with the same dependency list
+	// runs before `build` and moves the first dependency away, so it is gone when build's turn comes
+	MoveAway bool `json:"move_away,omitempty"`
 }
 
 var hashBinKinds = []string{"regular", "regular", "dir", "missing", "dangling", "symlink", "unreadable", "empty", "devnull", "dirlink"}
@@ -40,6 +47,8 @@ func genHashBinBody(t *rapid.T) HashBinCase {
 		c.Kinds = append(c.Kinds, rapid.SampledFrom(hashBinKinds).Draw(t, "kind"))
 	}
 	c.Flags = rapid.SampledFrom([][]string{nil, nil, {"--force"}, {"--json"}, {"--quiet"}}).Draw(t, "flags")
+	c.Prime = rapid.IntRange(0, 2).Draw(t, "prime") == 0
+	c.MoveAway = rapid.IntRange(0, 3).Draw(t, "move_away") == 0
 	return c
 }
 
@@ -85,7 +94,31 @@ func execHashBin(s *ev.Shard, b *sandbox.Box, c HashBinCase) *rp.Fail {
 		}
 	}
 	src := fmt.Sprintf("task build(%s) {\n    echo ran >> $LOG\n}\n", strings.Join(deps, ", "))
+	moveAway := c.MoveAway && !faulty && !odd && c.Kinds[0] == "regular"
+	if moveAway {
+		src = fmt.Sprintf("task first(%s) {\n    mv \"$P/d0\" \"$P/d0.gone\"\n}\n\ntask build(first, %s) {\n    echo ran >> $LOG\n}\n", strings.Join(deps, ", "), strings.Join(deps, ", "))
+		faulty = true // by the time build is looked at
+	}
 	files["spokfile"] = src
+	logPath := filepath.Join(b.Home, "run.log")
+	if c.Prime && !moveAway {
+		prime := map[string]string{"spokfile": src}
+		for i := range c.Kinds {
+			prime[fmt.Sprintf("d%d", i)] = "as it was at first"
+		}
+		if err := writeProject(b, b.Proj, prime); err != nil {
+			return &rp.Fail{Sig: "harness", Msg: err.Error()}
+		}
+		for k := 0; k < 2; k++ {
+			if r0 := b.Run(b.Proj, []string{"LOG=" + logPath, "P=" + filepath.Join(b.Home, "nowhere")}, runTimeout, "build"); r0.Exit != 0 {
+				return &rp.Fail{Sig: "harness", Msg: "priming run failed: " + sandbox.Strip(r0.Stderr)}
+			}
+		}
+		for i := range c.Kinds {
+			_ = os.RemoveAll(filepath.Join(b.Proj, fmt.Sprintf("d%d", i)))
+		}
+		_ = os.Remove(logPath)
+	}
 	if err := writeProject(b, b.Proj, files); err != nil {
 		return &rp.Fail{Sig: "harness", Msg: err.Error()}
 	}
@@ -95,12 +128,11 @@ func execHashBin(s *ev.Shard, b *sandbox.Box, c HashBinCase) *rp.Fail {
 		}
 	}
 	_ = b.Own()
-	logPath := filepath.Join(b.Home, "run.log")
 	args := append(append([]string(nil), c.Flags...), "build")
-	r := b.Run(b.Proj, []string{"LOG=" + logPath}, runTimeout, args...)
+	r := b.Run(b.Proj, []string{"LOG=" + logPath, "P=" + b.Proj}, runTimeout, args...)
 	size := len(c.Kinds) + len(c.Flags)
 	stderr := sandbox.Strip(r.Stderr)
-	desc := fmt.Sprintf("task with dependencies of kinds %v: `spok %s` (exit %d)", c.Kinds, strings.Join(args, " "), r.Exit)
+	desc := fmt.Sprintf("task with dependencies of kinds %v%s: `spok %s` (exit %d)", c.Kinds, map[bool]string{true: " (after two runs in which all of them were regular files)"}[c.Prime && !moveAway]+map[bool]string{true: " (a task with the same dependencies runs first and moves d0 away)"}[moveAway], strings.Join(args, " "), r.Exit)
 	if r.TimedOut {
 		return &rp.Fail{Sig: "process-stalled", Size: size, Msg: desc + ": did not terminate"}
 	}
@@ -122,7 +154,10 @@ func execHashBin(s *ev.Shard, b *sandbox.Box, c HashBinCase) *rp.Fail {
 	if s != nil {
 		if faulty {
 			s.Class("binary_unopenable_dependency")
-			s.NonTrivial("hashbin:" + fmt.Sprint(c.Kinds, c.Flags))
+			s.NonTrivial("hashbin:" + fmt.Sprint(c.Kinds, c.Flags, c.Prime))
+			if c.Prime {
+				s.Class("binary_unopenable_after_recorded_success")
+			}
 		} else {
 			s.Class("binary_all_readable")
 		}
